@@ -298,7 +298,11 @@ Definition engine_delete (R : N) (kind : dkind) (x : rec) (d : dst) : dst :=
     | ODie => mkD V W (d_lf d) rest true (mkStep kind x ODie safe :: d_trace d)
     end.
 
-Record wcfg := mkCfg { w_rev : N; w_compact : bool; w_tr : N; w_limit : N }.
+(* w_evp: scanner.Config.EventsPrefix (<prefix>/events/); empty = no key expires *)
+Record wcfg := mkCfg { w_rev : N; w_compact : bool; w_tr : N; w_limit : N; w_evp : bytes }.
+
+(* the key test of compactIfExpired: len(eventsPrefix) > 0 && bytes.HasPrefix(rawKey, eventsPrefix) *)
+Definition is_expirable (evp k : bytes) : bool := negb (is_nil evp) && has_prefix evp k.
 
 Definition kvr := (bytes * bytes * N)%type.    (* key, value, mod revision *)
 
@@ -316,7 +320,7 @@ Definition wbody (c : wcfg) (x : rec) (s : wst) : wst :=
   (* compactIfExpired (566-591) *)
   let expire : option dkind :=
     if (w_tr c =? 0) then None
-    else if contains events_sub k then
+    else if is_expirable (w_evp c) k then
       match x with
       | RIdx _ orev _ => if orev <=? w_tr c then Some KDelCur else None
       | RVer _ _ _ => if r <=? w_tr c then Some KDel else None
@@ -368,7 +372,7 @@ Definition init_w (d : dst) : wst := mkW d [] 0 [] [].
 Definition in_range (lo hi : bytes) (x : rec) : bool := bleb lo (rkey x) && bltb (rkey x) hi.
 
 Definition scan_read (V : store) (lo hi : bytes) (R limit : N) : list kvr :=
-  let c := mkCfg R false 0 limit in
+  let c := mkCfg R false 0 limit [] in
   wfinish c (wloop c (filter (in_range lo hi) V) (init_w (init_d V []))).
 
 (* Backend.List: limit+1 requested when limited, `more` when more than limit came back *)
@@ -385,10 +389,13 @@ Definition sort_by {A} (lt : A -> A -> bool) (l : list A) : list A := fold_right
 
 (* one compaction scan of [lo,hi) at revision R with timeout revision tr; a fresh worker (lf reset),
    the snapshot is what the engine holds in the range when the scan starts, in engine order *)
-Definition compact_range (R tr : N) (lo hi : bytes) (d : dst) : dst :=
-  let c := mkCfg R true tr 0 in
+Definition compact_range_e (evp : bytes) (R tr : N) (lo hi : bytes) (d : dst) : dst :=
+  let c := mkCfg R true tr 0 evp in
   let d0 := mkD (d_store d) (d_ghost d) [] (d_oc d) (d_dead d) (d_trace d) in
   w_d (wloop c (sort_by rec_ltb (filter (in_range lo hi) (d_store d))) (init_w d0)).
+
+(* without an events prefix (or, equally, with timeout revision 0) nothing expires: the compaction proper *)
+Definition compact_range (R tr : N) (lo hi : bytes) (d : dst) : dst := compact_range_e [] R tr lo hi d.
 
 (* ---------- compaction borders (compact.go:107-127) ---------- *)
 
@@ -426,17 +433,21 @@ Definition timeout_revision (support_ttl : bool) (ttl now : N) (q : list mark) :
   if support_ttl then (0, q) else pop_marks ttl now q 0.
 
 (* scanner.Compact(ctx,start,end,revision) at wall time now: push the mark, then scan *)
-Definition scanner_compact (support_ttl : bool) (ttl now : N) (R : N) (lo hi : bytes)
+Definition scanner_compact (evp : bytes) (support_ttl : bool) (ttl now : N) (R : N) (lo hi : bytes)
            (q : list mark) (d : dst) : list mark * N * dst :=
   let q1 := q ++ [(R, now)] in
   let '(tr, q2) := timeout_revision support_ttl ttl now q1 in
-  (q2, tr, compact_range R tr lo hi d).
-
-(* Backend.create's TTL choice (txn.go:70-75) *)
-Definition create_ttl (events_ttl : N) (k : bytes) : N := if contains events_sub k then events_ttl else 0.
+  (q2, tr, compact_range_e evp R tr lo hi d).
 
 (* the specification's notion of an event key: directly under <prefix>/events/ *)
 Definition is_event_key (prefix k : bytes) : bool := has_prefix (prefix ++ events_sub) k.
+
+(* getEventsPrefix (util.go) *)
+Definition events_prefix (prefix : bytes) : bytes := prefix ++ events_sub.
+
+(* Backend.create's TTL choice (txn.go:70-77): bytes.HasPrefix(key, getEventsPrefix(prefix)) *)
+Definition create_ttl (events_ttl : N) (prefix k : bytes) : N :=
+  if has_prefix (events_prefix prefix) k then events_ttl else 0.
 
 (* ================================================================================================ *)
 (* Part 5 — write requests on decoded records (txn.go, creator/naive.go), sequential                *)
